@@ -6,7 +6,7 @@ use vhc::textgen::{Case, Corpus, FAMILIES, gen_family, tokens};
 
 /// Families of this crate (grammar-directed programs = family (b) of DESIGN.md 2.4, and token-level
 /// mutants that stay inside the grammar).
-pub const LOCAL: &[&str] = &["gen-prog", "gen-prog-mutant", "ident-swap", "lit-swap", "op-swap", "kw-swap", "item-splice"];
+pub const LOCAL: &[&str] = &["gen-prog", "gen-prog-mutant", "ident-swap", "lit-swap", "op-swap", "kw-swap", "item-splice", "list-start"];
 
 /// The default set (narrowing, DESIGN.md 4.3; the full reasoning with the measured numbers is in
 /// vlib/props/c06.py, section NARROWING): repository files as they are and their *valid* variants (line endings,
@@ -18,7 +18,7 @@ pub const DEFAULT: &[&str] = &["corpus", "corpus-crlf", "line-endings", "multiby
 /// repairs), so they are exploration families: `families=mutants` or `families=all`.
 pub const MUTANTS: &[&str] = &[
     "tok-delete", "tok-dup", "tok-swap", "tok-replace", "tok-insert", "chunk-delete", "splice", "delim-flip", "ident-swap", "lit-swap", "op-swap",
-    "kw-swap",
+    "kw-swap", "list-start",
 ];
 /// Grammar-directed random programs, their mutants and concatenated files: same remark, higher yield still.
 pub const WIDE: &[&str] = &["gen-prog", "gen-prog-mutant", "item-splice"];
@@ -209,11 +209,46 @@ fn gen_local(c: &Corpus, rng: &mut Rng, fam: &str) -> Case {
                 "lit-swap" => replace_tokens(&base, rng, is_lit, |r, _| r.pick_str(LITS).to_string()),
                 "op-swap" => replace_tokens(&base, rng, is_binop, |r, _| r.pick_str(BINOPS).to_string()),
                 "kw-swap" => replace_tokens(&base, rng, is_kw, |r, _| r.pick_str(KWS).to_string()),
+                "list-start" => list_start(&base, rng),
                 _ => base,
             };
             mk(t, Some(i))
         }
     }
+}
+
+/// Every punctuation token of the language (incl. the ones that end or separate constructs).
+const PUNCT: &[&str] = &[
+    "=>", "->", "::", ":", ";", ",", ".", "..", "...", "..=", "=", "==", "!", "!=", "@", "#", "$", "?", "~", "|", "||", "&", "&&", "<", ">", "<=", ">=", "+", "-",
+    "*", "/", "%", "^", "(", ")", "[", "]", "{", "}", "_", "'", "\"",
+];
+
+/// A token that cannot (or can) start a list element, put exactly where a list element has to start: behind an
+/// opening delimiter, a separator or a lambda bar. Element parsers that consume nothing there must not break their
+/// caller's progress assumptions (seeded change C06). The inserted token cycles through all punctuation and keywords.
+fn list_start(base: &str, rng: &mut Rng) -> String {
+    let toks = tokens(base);
+    let sites: Vec<usize> = toks.iter().enumerate().filter(|(_, (_, s))| matches!(*s, "(" | "[" | "{" | "," | "|" | "||" | ";" | "=>")).map(|(i, _)| i).collect();
+    if sites.is_empty() {
+        return base.to_string();
+    }
+    let k = 1 + rng.below(2);
+    let mut at: Vec<usize> = (0..k).map(|_| *rng.pick(&sites)).collect();
+    at.sort();
+    at.dedup();
+    let mut out = String::with_capacity(base.len() + 16);
+    for (i, (_, s)) in toks.iter().enumerate() {
+        out.push_str(s);
+        if at.contains(&i) {
+            let t = if rng.chance(2, 3) { rng.pick_str(PUNCT) } else { rng.pick_str(KWS) };
+            out.push(' ');
+            out.push_str(t);
+            if rng.chance(1, 2) {
+                out.push(' ');
+            }
+        }
+    }
+    out
 }
 
 const NAMES_ANY: &[&str] = &[
